@@ -29,14 +29,31 @@ type Event map[string]any
 type Collector struct {
 	mu  sync.Mutex
 	evs []Event
+	// Max bounds the number of events kept (default 400 000). Events are appended
+	// in real-time order under the lock, so cutting the collection at one point
+	// in time keeps, for every recorded FrameIn, the FrameSent that produced its
+	// bytes (a send is recorded before its bytes can be received), and leaves
+	// every object with a PREFIX of its trace - which the specification also accepts.
+	Max     int
+	Dropped int64
+}
+
+func (c *Collector) add(e Event) {
+	c.mu.Lock()
+	max := c.Max
+	if max == 0 {
+		max = 400000
+	}
+	if len(c.evs) < max {
+		c.evs = append(c.evs, e)
+	} else {
+		c.Dropped++
+	}
+	c.mu.Unlock()
 }
 
 func (c *Collector) Install() {
-	stream.VerifSink = func(rec map[string]any) {
-		c.mu.Lock()
-		c.evs = append(c.evs, Event(rec))
-		c.mu.Unlock()
-	}
+	stream.VerifSink = func(rec map[string]any) { c.add(Event(rec)) }
 }
 
 func (c *Collector) Uninstall() { stream.VerifSink = nil }
@@ -44,9 +61,7 @@ func (c *Collector) Uninstall() { stream.VerifSink = nil }
 // AddSyntheticSend records a frame produced by the reference sealer so that the
 // join can recognise it.
 func (c *Collector) AddSyntheticSend(wh, k string, ctr uint32, prot bool) {
-	c.mu.Lock()
-	c.evs = append(c.evs, Event{"ev": "RefSent", "wh": wh, "k": k, "ctr": ctr, "prot": prot})
-	c.mu.Unlock()
+	c.add(Event{"ev": "RefSent", "wh": wh, "k": k, "ctr": ctr, "prot": prot})
 }
 
 func (c *Collector) Events() []Event {
